@@ -29,6 +29,7 @@ type Config struct {
 	Version string `json:"version"` // "3.0", "4.0", "4.1"
 	Mode    string `json:"mode"`    // "", "complain", "enforce"
 	Full    bool   `json:"full"`
+	Short   bool   `json:"short,omitempty"` // give the options in their one-letter spelling (-a -v -c -e -f)
 }
 
 func (c Config) String() string {
@@ -44,15 +45,19 @@ func (c Config) String() string {
 }
 
 func (c Config) Args() []string {
-	a := []string{"--abi", fmt.Sprint(c.ABI), "--version", c.Version}
+	abi, ver, complain, enforce, full := "--abi", "--version", "--complain", "--enforce", "--full"
+	if c.Short {
+		abi, ver, complain, enforce, full = "-a", "-v", "-c", "-e", "-f"
+	}
+	a := []string{abi, fmt.Sprint(c.ABI), ver, c.Version}
 	switch c.Mode {
 	case "complain":
-		a = append(a, "--complain")
+		a = append(a, complain)
 	case "enforce":
-		a = append(a, "--enforce")
+		a = append(a, enforce)
 	}
 	if c.Full {
-		a = append(a, "--full")
+		a = append(a, full)
 	}
 	return a
 }
